@@ -114,7 +114,7 @@ theorem signer_record_removed_only_by (s : St) (op : Op) (a : Addr) (c h : Nat)
   | updateClient c' w hd ibc => exact absurd (updateClient_sub s c' w hd ibc _ hin) hout
   | misbehaviour c' k ibc => exfalso; apply hout; simp only [step]; rw [misbehaviour_signerSet]; exact hin
   | chanInit c' => exfalso; apply hout; simp only [step]; rw [chanInit_signerSet]; exact hin
-  | chanAck ch ibc => exfalso; apply hout; simp only [step]; rw [chanAck_signerSet]; exact hin
+  | chanAck ch w ibc => exfalso; apply hout; simp only [step]; rw [chanAck_signerSet]; exact hin
 
 -- ================================================================================================
 -- 3. withdraw_refused_while_recorded
